@@ -54,6 +54,7 @@ Inductive site :=
 | SStrict (nested : bool) (maps : list mapping) (dets : list (list str))
 | SUnref (keys refs : list str)
 | SCorr (unknown : list str)
+| SCorrD (d : list (str * cval))
 | SFlags (fl : list reflag)
 | SNames (r : rule) (filters : list sfilter) (adds : list (str * bool))
 | STracking (ops : list top)
@@ -99,6 +100,11 @@ Definition agree (O : order) (s : site) (r : irun) : bool :=
       match corr_msg O u with
       | Some m => negb (i_ok r) && str_eqb (i_text r) m
       | None => i_ok r
+      end
+  | SCorrD d =>
+      match corr_from_dict O d with
+      | COk op z => i_ok r && str_eqb (i_text r) (op ++ [32] ++ z)
+      | CErr m => negb (i_ok r) && str_eqb (i_text r) m
       end
   | SFlags fl => i_ok r && prefixb (flag_prefix O fl ++ re_body ++ nl) (i_text r)
   | SNames ru fs adds =>
@@ -168,6 +174,7 @@ Definition nontrivial (s : site) : bool :=
   | SStrict _ maps dets => two_plus (norm (concat dets)) || existsb (fun m => existsb (fun kv => two_plus (snd kv)) m) maps
   | SUnref keys refs => two_plus (s_diff keys refs)
   | SCorr u => two_plus (norm u)
+  | SCorrD d => two_plus d
   | SFlags fl => two_plus (flag_set fl)
   | SNames _ fs adds => match fs, adds with [], [] => false | _, _ => true end
   | STracking ops => two_plus ops
